@@ -108,6 +108,29 @@ CHECKS = {
             "DESIGN.md §4 C17"),
 }
 
+
+# additions of the third build session (appended to the level text / note of the table above)
+ADD_TEXT = {
+    "C01": " Both tiers also run chunk size 1 over 1 029 and 65 537 bytes (chunk counts beyond 8 and 16 bits of the 24-bit field); quick has a depth-3 level over {1 byte, empty, chunk size + 1} x N/Z x plain/Salsa20.",
+    "C03": " Root manifests additionally: unnamed records without NO_NAME_HASH, paths handed in only together with NO_NAME_HASH next to an ordinary block without a named file, and builder programs that remove a FileDataID again (first / middle / last record) before build.",
+    "C05": " Index pre-states include a sorted section that ends exactly on a 64 KiB boundary (25 484 entries) next to the two that end just past one.",
+    "C06": " Disk-cache scenarios include a value at the cache's large-file size (16 MiB) on the plain instance and on the instance built with its background tasks. Every crash image that loads must also take the next save of the same kind and show it to the next instance.",
+    "C07": " Both tiers run every position of every artifact and cache histories of depth 5 (thorough 6); the cache subjects include the empty size class (a backing file with a header and no payload, an empty value put below a non-empty key).",
+    "C09": " The quick tier runs the thorough bounds except the 256 MiB Salsa20 stream (16 MiB instead).",
+    "C10": " Also: the memory cache built with its cleanup task (paused clock, tick), with statistics collection off, and expiry scripts - every script to depth 5 (thorough 6) over {put_short (900 ms, real time), put_hour, get, contains, reopen, wait} that starts with put_short, has one wait and observes after it, judged only where the measured times leave no doubt.",
+    "C11": " The entry-count and usage counters of MemoryCache and DiskCache are scheduling points too (every load / store / fetch_* / compare_exchange), and the lock wrappers model writer preference (a read() behind a waiting writer blocks), so a nested read on a wrapped lock is reported as a deadlock.",
+    "C13": " (8) a TACT endpoint answering 200 with the full Content-Length and the body cut by the peer after every proper prefix.",
+    "C15": " Both tiers run the full date grid, every ordered pair of misbehaving request classes and every request line; product names include letters and digits outside ASCII, build times lie on both sides of 2^31 and 2^32 seconds and in the year 9999 (thorough adds the years 2038, 2106, 2400 to the grid).",
+    "C16": " A fifth encoding, z128k (128 KiB per letter, extremely compressible), runs with large diff-block sizes over strings of length <= 1 (thorough 2).",
+    "C18": " A wide part compacts sparse files whose first live span (2^31-4096 ... 2^32+2^31 bytes) is already in place and is followed by a gap and 100 live bytes: length, reported saving, the small span and both ends of the large one are compared.",
+    "C19": " The quick tier runs the thorough bounds.",
+    "C20": " Also: the raw-key sequence on the disk cache built with its background tasks (an entry expired at once and an entry over max_files, each followed by a cleanup pass on a paused clock), and every ordered pair of distinct accepted endpoints (product segments differing only in _ - . / and case) through RibbitTactClient::query on one cache directory against a mock whose answers name the request target.",
+}
+ADD_NOTE = {
+    "C11": " Further hook commits: 2621226 (atomics wrapper, counted DashMap guards), 0bb4597 (writer preference). Counter operations inside the scope of a DashMap shard guard are deliberately not scheduling points.",
+    "C10": " The expiry scripts run in real time: observations too close to the end of the TTL are counted as unjudged, never alarmed on.",
+}
+
 NOT_YET = {
 }
 
@@ -122,6 +145,8 @@ def main():
         if pid not in CHECKS:
             continue
         eng, cat, tech, text, note, ref = CHECKS[pid]
+        text += ADD_TEXT.get(pid, "")
+        note += ADD_NOTE.get(pid, "")
         checks.append({
             "property_id": pid,
             "quick_cmd": f"./check {pid} quick",
@@ -145,7 +170,7 @@ def main():
             "enable": "cargo feature `verif-hooks` on cascette-cache and cascette-client-storage, switched on by the path dependencies in harness/Cargo.toml",
             "baseline_off_cmd": "/verif/tools/repo_tests.sh",
             "source_commits": hooks_commits,
-            "add_only": False,  # 0da5b95 and b72114b rewrite one import line each in disk_cache.rs, multi_layer.rs and container/dynamic.rs (cfg-switched RwLock import); a395111 hoists one atomic load of fast_snapshot() into a local so that a point fits between the two loads; a160769 rewrites the DashMap import of memory_cache.rs and the RwLock import of storage/archive_file.rs; everything else only adds
+            "add_only": False,  # 0da5b95 and b72114b rewrite one import line each in disk_cache.rs, multi_layer.rs and container/dynamic.rs (cfg-switched RwLock import); a395111 hoists one atomic load of fast_snapshot() into a local so that a point fits between the two loads; a160769 rewrites the DashMap import of memory_cache.rs and the RwLock import of storage/archive_file.rs; 2621226 rewrites the atomic imports of memory_cache.rs and disk_cache.rs; everything else only adds
         },
         "engines": [
             {"name": "SEQ", "path": "harness/src/seq.rs", "serves_properties": [p for p in props if p in CHECKS and CHECKS[p][0].startswith("SEQ")], "kind_free_text": "explicit-state exploration of operation histories on the real object in lock-step with a reference model; state = history, rebuilt by replay; BFS by depth; 1-minimal counterexamples"},
